@@ -153,6 +153,11 @@ def to_z3(pattern: str, flags: int = 0):
     return parse(pattern, flags)[0]
 
 
+# (method, pattern text) -> handler(symbolic string) -> match-like object or None: capture-group reconstruction for the few
+# patterns of the code under test whose groups are used (registered by the harness that knows them)
+SPECIAL: dict = {}
+
+
 class _Match:
     """Truthy stand-in for a match object on a symbolic string."""
 
@@ -187,6 +192,8 @@ class SymPattern:
     def fullmatch(self, s, *a):
         if not isinstance(s, SymStr):
             return self._real.fullmatch(s, *a)
+        if ('fullmatch', self.pattern) in SPECIAL and not a:
+            return SPECIAL[('fullmatch', self.pattern)](s)
         if getattr(s, 'z', None) is None or a:
             raise C.Unsupported('regex on a derived symbolic string')
         return self._decide(s, self.z())
@@ -194,6 +201,8 @@ class SymPattern:
     def match(self, s, *a):
         if not isinstance(s, SymStr):
             return self._real.match(s, *a)
+        if ('match', self.pattern) in SPECIAL and not a:
+            return SPECIAL[('match', self.pattern)](s)
         if getattr(s, 'z', None) is None or a:
             raise C.Unsupported('regex on a derived symbolic string')
         return self._decide(s, z3.Concat(self.z(), self._tail()))
@@ -201,6 +210,8 @@ class SymPattern:
     def search(self, s, *a):
         if not isinstance(s, SymStr):
             return self._real.search(s, *a)
+        if ('search', self.pattern) in SPECIAL and not a:
+            return SPECIAL[('search', self.pattern)](s)
         if getattr(s, 'z', None) is None or a:
             raise C.Unsupported('regex on a derived symbolic string')
         z_ = self.z()
